@@ -1,4 +1,5 @@
 from sly import Parser
+from sly.lex import LexError
 from mindsdb_sql.parser.ast import *
 from mindsdb_sql.parser.ast.drop import DropDatabase, DropView
 from mindsdb_sql.parser.dialects.mindsdb.agents import CreateAgent, DropAgent, UpdateAgent
@@ -2020,9 +2021,18 @@ class MindsDBParser(Parser):
             else:
                 raise ParsingException("Syntax error at EOF")
 
+        # the rest of the tokens. The lexer is lazy: an illegal character further on in the text is met only now.
+        # The syntax error comes first in the text, it is the one to report
+        rest_tokens = []
+        try:
+            for token in self.tokens:
+                rest_tokens.append(token)
+        except LexError:
+            pass
+
         # save error info for future usage
         self.error_info = dict(
-            tokens=self.used_tokens.copy() + list(self.tokens),
+            tokens=self.used_tokens.copy() + rest_tokens,
             bad_token=p,
             expected_tokens=expected_tokens
         )
